@@ -272,6 +272,25 @@ func (f *frame) equalVals(a, b Term, t types.Type) Term {
 	return eq(a, b)
 }
 
+// abstractNonlinear: the function under verification asked for `opt nonlinear=abstract`.
+func (f *frame) abstractNonlinear() bool {
+	rf := f.c.rootFrame
+	return rf != nil && rf.contract != nil && rf.contract.Opts["nonlinear"] == "abstract"
+}
+
+func isIntLit(s string) bool {
+	s = strings.TrimSuffix(strings.TrimPrefix(s, "(- "), ")")
+	if s == "" {
+		return false
+	}
+	for _, ch := range s {
+		if ch < '0' || ch > '9' {
+			return false
+		}
+	}
+	return true
+}
+
 func (f *frame) binopSafe(x *ssa.BinOp, a, b Term) Term {
 	if x.Op == token.QUO || x.Op == token.REM {
 		if _, ok := basicInt(x.Type()); ok {
@@ -288,6 +307,15 @@ func (f *frame) binop(op token.Token, a, b Term, opType, resType types.Type, pos
 		switch {
 		case bt.Info()&types.IsInteger != 0:
 			w := func(t Term, full bool) Term { return mk(SInt, wrapName(bt, full), t) }
+			if (op == token.MUL || op == token.QUO || op == token.REM) && f.abstractNonlinear() && !isIntLit(b.S) && (op != token.MUL || !isIntLit(a.S)) {
+				// `opt nonlinear=abstract`: the product / quotient of two symbolic operands is an
+				// uninterpreted function of them (sound: only arithmetic facts are lost); keeps the
+				// queries of the function linear
+				name := map[token.Token]string{token.MUL: "umul", token.QUO: "udiv", token.REM: "umod"}[op]
+				r := w(mk(SInt, name, a, b), true)
+				c.assumed["products and quotients of two symbolic operands are uninterpreted in functions marked `opt nonlinear=abstract` (abstraction: facts are lost, none invented)"] = true
+				return r
+			}
 			switch op {
 			case token.ADD:
 				return w(add(a, b), false)
